@@ -213,6 +213,9 @@ h_fmt!(c14_t_bin_bvfix_l128, 131, Binary, "b", bvfix(128), u128);
 h_fmt!(c14_t_lhex_bvd3_l128_spare, 35, LowerHex, "x", bvd3(128), u128);
 
 // ---- decimal: repeated division by ten (each div_rem costs minutes) ---------------------------
+// values below ten: one digit, div_rem returns early (divisor has more significant bits); the
+// (unreachable) division loop is cut by the small unwind bound and its unwinding assertion
+h_fmt!(c14_q_dec_bvfix_l3, 4, Display, "", bvfix(3), u64);
 h_fmt!(c14_t_dec_f8x1_l3, 6, Display, "", f8x1(3), u8);
 h_fmt!(c14_t_dec_f8x1_l4, 7, Display, "", f8x1(4), u8);
 h_fmt!(c14_t_dec_f8x1_l7, 10, Display, "", f8x1(7), u8);
